@@ -15,7 +15,7 @@ func init() {
 		mutant{"vmeta-arity-tightened", "pkg/engine/recovery.go", "// VMETA <IndexName> <ID> <MetadataJSON>\n\t\t\tif len(cmd.Args) == 3 {", "// VMETA <IndexName> <ID> <MetadataJSON>\n\t\t\tif len(cmd.Args) == 4 {", "CDC-2", "arity:VMETA"},
 	)
 	addMutants("C03",
-		mutant{"payload-cap-raised-beyond-memory", "pkg/persistence/frame.go", "\tif length > MaxPayloadSize {\n\t\treturn nil, HeaderSize, fmt.Errorf(", "\tif uint64(length) > MaxPayloadSize*1024 {\n\t\treturn nil, HeaderSize, fmt.Errorf(", "CDC-5", "ReadFrame"},
+		// (payload-cap-raised-beyond-memory was retired with fix 8ddeebb: the frame reader no longer allocates what the cap allows, so raising the cap costs nothing)
 		mutant{"args-cap-removed", "pkg/persistence/resp.go", "\tif numArgs > MaxArgsPerCommand {\n\t\treturn nil, fmt.Errorf(\"too many arguments: %d exceeds maximum %d\", numArgs, MaxArgsPerCommand)\n\t}\n", "", "CDC-5", "ParseCommand"},
 		mutant{"payload-returned-before-crc", "pkg/persistence/frame.go", "\tif actualCRC != expectedCRC {\n\t\treturn nil, HeaderSize + int(length), ErrChecksumMismatch\n\t}\n", "\tif actualCRC != expectedCRC && length > 16 {\n\t\treturn nil, HeaderSize + int(length), ErrChecksumMismatch\n\t}\n", "GRD-crc", "ReadFrame"},
 		mutant{"checksum-error-refuses-start", "pkg/engine/recovery.go", "\t\t\t// Case B: Corruption (Incomplete write or Bit rot)", "\t\t\tif errors.Is(err, persistence.ErrChecksumMismatch) {\n\t\t\t\treturn err\n\t\t\t}\n\t\t\t// Case B: Corruption (Incomplete write or Bit rot)", "CDC-6", "loop-error-return"},
@@ -270,7 +270,7 @@ func init() {
 	addMutants("C07",
 		mutant{"small-graph-test-on-id-counter", "pkg/core/hnsw/hnsw_index.go", "\tcurrentSize := uint64(len(h.externalToInternalID))\n\th.metaMu.RUnlock()\n\n\tif currentSize < uint64(efConst) {", "\tcurrentSize := h.nodeCounter.Load()\n\th.metaMu.RUnlock()\n\n\tif currentSize < uint64(efConst) {", "GRD-smallgraph", "addBatchInternal:small-graph-test"},
 		mutant{"deleted-nodes-not-walked-through", "pkg/core/hnsw/hnsw_index.go", "\t\t\tif neighborNode == nil {\n\t\t\t\tcontinue\n\t\t\t}\n\n\t\t\t// --- DISTANCE CALCULATION ---", "\t\t\tif neighborNode == nil || neighborNode.Deleted.Load() {\n\t\t\t\tcontinue\n\t\t\t}\n\n\t\t\t// --- DISTANCE CALCULATION ---", "GRD-traverse", "searchLayerUnlocked:candidate-push"},
-		mutant{"election-flag-set-conditionally", "pkg/core/hnsw/optimizer.go", "\t\t\tif node != nil && !node.Deleted.Load() {\n\t\t\t\to.index.entrypointID.Store(uint32(i))\n\t\t\t\to.index.maxLevel.Store(int32(len(node.Connections) - 1))\n\t\t\t\tnewEntryFound = true\n\t\t\t\tbreak\n\t\t\t}", "\t\t\tif node != nil && !node.Deleted.Load() {\n\t\t\t\tif len(node.Connections) > 1 {\n\t\t\t\t\to.index.entrypointID.Store(uint32(i))\n\t\t\t\t\to.index.maxLevel.Store(int32(len(node.Connections) - 1))\n\t\t\t\t\tnewEntryFound = true\n\t\t\t\t\tbreak\n\t\t\t\t}\n\t\t\t}", "GRD-elect", "Vacuum:live-node-seen"},
+		mutant{"election-flag-set-conditionally", "pkg/core/hnsw/optimizer.go", "\t\t\t\tnewEntryFound = true\n", "\t\t\t\tif len(node.Connections) > 1 {\n\t\t\t\t\tnewEntryFound = true\n\t\t\t\t}\n", "GRD-elect", "Vacuum:live-node-seen"},
 	)
 	addMutants("C18",
 		mutant{"clamp-after-float-to-int", "pkg/core/distance/quantizer.go", "\t\tif scaled > 127.0 {\n\t\t\tscaled = 127.0\n\t\t} else if scaled < -127.0 {\n\t\t\tscaled = -127.0\n\t\t}\n\t\t// --- END CLIPPING LOGIC ---\n\n\t\tquantized[i] = int8(math.Round(float64(scaled)))", "\t\tlevel := int(math.Round(float64(scaled)))\n\t\tif level > 127 {\n\t\t\tlevel = 127\n\t\t} else if level < -127 {\n\t\t\tlevel = -127\n\t\t}\n\t\t// --- END CLIPPING LOGIC ---\n\n\t\tquantized[i] = int8(level)", "GRD-clamp", "Quantize:int8-conversion#1"},
@@ -1082,4 +1082,19 @@ func init() {
 	addMutants("C03",
 		mutant{"frame-payload-allocated-as-promised", "pkg/persistence/frame.go", "\tif length <= eagerPayloadLimit {\n", "\tif length <= MaxPayloadSize {\n", "GRD-eagerframe", "small-or-grown"},
 	)
+	// ---- renames of unexported struct fields (fieldNameAt in anchors.go)
+	addMutants("C07", mutant{"benign:rename-field-needsRefine", "pkg/core/hnsw/hnsw_index.go", "§all§needsRefine", "awaitsRefine", "silent", ""})
+	m = mutant{"benign:rename-field-entrypointID", "pkg/core/hnsw/hnsw_index.go", "§all§entrypointID", "entryNodeID", "silent", ""}
+	addMutants("C07", m)
+	addMutants("C04", m)
+	moreEdits["benign:rename-field-entrypointID"] = []edit{{"pkg/core/hnsw/optimizer.go", "§all§entrypointID", "entryNodeID"}}
+	m = mutant{"benign:rename-field-snapPath", "pkg/engine/recovery.go", "§all§snapPath", "snapshotFile", "silent", ""}
+	addMutants("C02", m)
+	addMutants("C14", m)
+	moreEdits["benign:rename-field-snapPath"] = []edit{{"pkg/engine/engine.go", "§all§snapPath", "snapshotFile"}}
+	m = mutant{"benign:rename-field-metadataLocks", "pkg/engine/engine.go", "§all§metadataLocks", "nodeMetaLocks", "silent", ""}
+	addMutants("C13", m)
+	addMutants("C15", m)
+	addMutants("C16", mutant{"renamed-field-root-token-compared-by-prefix", "internal/server/middleware.go", "§all§authToken", "rootToken", "WEB-auth", "bypass-tests"})
+	moreEdits["renamed-field-root-token-compared-by-prefix"] = []edit{{"internal/server/http_handlers.go", "§all§authToken", "rootToken"}, {"internal/server/server.go", "§all§authToken", "rootToken"}, {"internal/server/middleware.go", "token == s.rootToken", "token == s.rootToken || s.rootToken == \"dev\""}}
 }
